@@ -101,6 +101,9 @@ package smtp
 //@   ghostset c.lastCode = code
 //@   modifies c.replies, c.finals, c.lastCode
 //@   before (*net/textproto.Writer).PrintfLine: @C17 enhanced-code-on-every-line: $1 == "%d-%v" ==> enhCode == NoEnhancedCode
+//@   before (*net/textproto.Writer).PrintfLine: @C17,C04 one-of-the-four-reply-line-forms: $1 == "%d-%v" || $1 == "%d-%v.%v.%v %v" || $1 == "%d %v" || $1 == "%d %v.%v.%v %v"
+//@   before (*net/textproto.Writer).PrintfLine: @C17,C04 every-line-carries-the-reply-code: len($2) >= 1 && asref($2[0]) == code
+//@   before (*net/textproto.Writer).PrintfLine: @C17 continuation-lines-carry-the-same-enhanced-code: $1 == "%d-%v.%v.%v %v" ==> len($2) == 5 && asref($2[1]) == enhCode[0] && asref($2[2]) == enhCode[1] && asref($2[3]) == enhCode[2]
 //@   ensures c.replies == old(c.replies) + 1 && c.finals == old(c.finals) + (code >= 300 && code < 400 ? 0 : 1) && c.lastCode == code
 //@   ensures @C17,C04 code-on-the-wire: c.text.Writer.lastCode == code
 //@   ensures @C17,C04 at-least-one-line: c.text.Writer.lines >= old(c.text.Writer.lines) + 1
